@@ -91,7 +91,8 @@ def r_dualcone(c):
     A = make_agg(c["agg"], J.shape[0], dict(norm_eps=eps, reg_eps=reg), c["u"] if c.get("pref") else None)
     out = A(t64(J)).numpy()
     w_ref, ref = dualcone_reference(J, u, eps, reg, c["agg"])
-    return dict(reproduced=not close(out, ref, 1e-5, scale=np.abs(J).max()), out=out.tolist(), reference=ref.tolist(), weights_reference=w_ref.tolist())
+    sc = np.abs(J).max() * max(np.abs(u).max(), np.abs(w_ref).max(), 1e-300)
+    return dict(reproduced=not close(out, ref, 1e-5, scale=sc), out=out.tolist(), reference=ref.tolist(), weights_reference=w_ref.tolist())
 
 
 @handler("bad_pref")
@@ -111,7 +112,8 @@ def r_kkt(c):
     u = np.asarray(arr(c["u"]), dtype=float)
     v = _project_weight_vector(u, P, "quadprog")
     ref = qp_reference(P, list(u))
-    return dict(reproduced=not close(v, ref, 1e-6), v=v.tolist(), reference=ref.tolist())
+    # the projection is positively homogeneous in u: tolerances are relative to the size of u, not absolute
+    return dict(reproduced=not close(v, ref, 1e-6, scale=max(np.abs(u).max(), np.abs(ref).max(), 1e-300)), v=v.tolist(), reference=ref.tolist())
 
 
 @handler("row_perm")
